@@ -63,3 +63,54 @@ def oneline_corpus(chk):
         v = random_value(rng, depth=rng.choice([1, 2, 3]))
         out.append(('random[%d]=%r' % (i, v), v))
     return out
+
+
+def configs_for(rng, n):
+    out = [(79, 71, 4)]
+    while len(out) < n:
+        w = rng.choice([1, 5, 10, 20, 30, 40, 60, 79, 120, 200])
+        rw = rng.choice([1, max(1, w // 2), w, 200])
+        out.append((w, rw, rng.choice([1, 2, 4, 8])))
+    return out
+
+
+def commented(rng, v, depth=2):
+    """Randomly attach comment()/trailing_comment() annotations to nodes of v."""
+    import prettyprinter as P
+    texts = ['c', 'a comment', 'two words', 'x' * 30 + ' ' + 'y' * 30, 'multi\nline']
+    if depth > 0 and isinstance(v, list):
+        v = [commented(rng, x, depth - 1) for x in v]
+    elif depth > 0 and isinstance(v, tuple):
+        v = tuple(commented(rng, x, depth - 1) for x in v)
+    elif depth > 0 and type(v) is dict:
+        v = {k: commented(rng, x, depth - 1) for k, x in v.items()}
+    r = rng.random()
+    if r < 0.25:
+        return P.comment(v, rng.choice(texts))
+    if r < 0.35 and isinstance(v, (list, tuple, dict)) and len(v):
+        return P.trailing_comment(v, rng.choice(texts))
+    return v
+
+
+def layout_corpus(chk):
+    import collections, datetime
+    rng = random.Random(chk.seed + 404)
+    out = []
+    fixed = [
+        [1, 2, 3], {'a': 1, 'b': [1, 2], 'c': {'d': (1,)}}, 'a long string ' * 10, ['x' * 100],
+        {'key': 'value ' * 20}, {'k' * 30: 1}, (b'bytes ' * 15,), [[[[['deep ' * 8]]]]],
+        collections.OrderedDict([(1, 'one ' * 12)]), collections.deque(range(20), maxlen=30),
+        datetime.datetime(2020, 1, 2, 3, 4, 5), datetime.timedelta(days=800, seconds=3),
+        list(range(60)), {i: str(i) * i for i in range(8)}, frozenset([1, 2, 3]), set(),
+    ]
+    for i, v in enumerate(fixed):
+        out.append(('fixed[%d]=%.80r' % (i, v), v))
+    n = 40 if chk.tier == 'quick' else 600
+    for i in range(n):
+        v = random_value(rng, depth=rng.choice([1, 2, 3, 4]))
+        if rng.random() < 0.5:
+            cv = commented(rng, v)
+            out.append(('commented[%d]=%.120r' % (i, v), cv))
+        else:
+            out.append(('random[%d]=%.120r' % (i, v), v))
+    return out
